@@ -13,6 +13,9 @@ V: (a) integer-grid runs with beta1 / weight decay / other shapes (ranks 1..4) r
    counts against an exact float64 recursion (one-sided margin) validated by SM3_Trace.
 """
 import copy
+import json
+import os
+import time
 
 import numpy as np
 
@@ -132,12 +135,29 @@ def judge(ck, traces, label):
 
 
 def run(ck):
+  t0 = time.time()
+  ph = ck.cov.setdefault("phase_wall_s", {})
+  if getattr(ck, "replay", None):
+    saved = json.load(open(ck.replay))["case"]
+    if "steps" in saved:
+      replay(ck, [{"cfg": saved["cfg"], "steps": saved["steps"]}], "replay of " + ck.replay)
+      ck.sample({"replayed_behaviour": saved["cfg"]})
+    elif "trace" in saved:
+      judge(ck, [saved["trace"]], "replay of " + ck.replay)
+      ck.sample({"replayed_trace": saved["trace"]["cfg"]})
+    else:
+      raise core.MachineryError("replay file holds neither a behaviour nor a trace")
+    return
   quick = ck.quick
   # ---- M ------------------------------------------------------------------------------
-  ck.mc("SM3_MC", "SM3_MCV", required_actions=["Grad", "Sketch"])       # vacuity (with coverage)
-  r = ck.mc("SM3_MC", "SM3_MC" if quick else "SM3_MCT")
-  if r.depth < 7:
-    raise core.MachineryError(f"SM3_MC explored depth {r.depth} < 7: horizon T=3 not reached")
+  if os.environ.get("VERIF_C12_SKIP_M") == "1":     # development only (mutation runs: the model is unchanged)
+    ck.assume("M leg skipped by VERIF_C12_SKIP_M=1")
+  else:
+    ck.mc("SM3_MC", "SM3_MCV", required_actions=["Grad", "Sketch"])       # vacuity (with coverage)
+    r = ck.mc("SM3_MC", "SM3_MC" if quick else "SM3_MCT")
+    if r.depth < 7:
+      raise core.MachineryError(f"SM3_MC explored depth {r.depth} < 7: horizon T=3 not reached")
+  ph["M"] = round(time.time() - t0, 1)
   # ---- R ------------------------------------------------------------------------------
   beh = ck.gen("SM3_Gen", "SM3_Gen" if quick else "SM3_GenT")
   sim = ck.gen("SM3_Gen", "SM3_GenS", simulate=600 if quick else 6000, depth=7)
@@ -146,7 +166,9 @@ def run(ck):
   ck.sample({"spec_behaviour": next(b for b in beh if b["cfg"]["shape"] == [2, 2] and b["cfg"]["bd"] == 2
                                      and b["steps"][0]["g"] == [2, -1, -1, 2])})
   ck.sample({"spec_behaviour_simulated": sim[0]})
+  ph["gen"] = round(time.time() - t0, 1)
   mattered, lossy = replay(ck, beh + sim, "SM3_Gen replay", chunk=200)
+  ph["replay"] = round(time.time() - t0, 1)
   m2 = l2 = 0
   ck.cov["steps_where_min_over_unequal_accumulators"] = mattered
   ck.cov["steps_where_nu_exceeds_exact"] = lossy
@@ -167,7 +189,9 @@ def run(ck):
   ck.selftest("R: expected accumulator entry + 1 is flagged", "sm3|rank2|accumulator_differs_from_model" in keys)
   ck.selftest("R: expected nu entry * 2 is flagged", "sm3|rank2|update_is_not_lr_g_over_sqrt_nu" in keys)
   # ---- V ------------------------------------------------------------------------------
+  ph["selftest_R"] = round(time.time() - t0, 1)
   traces = record(ck, 60 if quick else 600, 90 if quick else 900)
+  ph["record"] = round(time.time() - t0, 1)
   if not traces:
     raise core.MachineryError("no trace recorded")
   ck.sample({"recorded_trace": {"cfg": traces[0]["cfg"], "events": traces[0]["events"][:2],
